@@ -112,6 +112,9 @@ def can_win_by_rules(s: State, i: int) -> bool | None:
     """Independent `can win now`: could player i's full hand win or tie any pot he is eligible
     for, on any board, for any hand type, against the hands shown so far (independent ranking)."""
     types = [t.__name__ for t in s.hand_types]
+    if s.statuses[i] and sum(1 for x in s.statuses if x) == 1:
+        # a lone survivor takes everything, whatever he holds and however many board cards are out
+        return True
     try:
         pots = list(s.pots)
     except Exception:  # noqa: BLE001
